@@ -1,7 +1,7 @@
 """C13 Only the sender's key can authorize a transaction (spec/data/TxAuth.tla)."""
 import json
 
-FULL = {"DTypes": '{"none", "message", "call", "deploy", "deposit_add", "deposit_withdraw", "patch"}', "TxKinds": '{"v3", "v2"}', "VForms": '{"ok", "flip", "hi", "comp", "bad"}', "RForms": '{"ok", "flip"}', "SForms": '{"ok", "flip", "neg"}',
+FULL = {"DTypes": '{"none", "message", "call", "deploy", "deposit_add", "deposit_withdraw", "patch", "call_nodata", "call_nomethod", "deploy_nodata", "deploy_value", "patch_nodata", "patch_badtype", "deposit_nodata", "neg_value", "neg_step"}', "TxKinds": '{"v3", "v2"}', "VForms": '{"ok", "flip", "hi", "comp", "bad"}', "RForms": '{"ok", "flip"}', "SForms": '{"ok", "flip", "neg"}',
         "Lens": "{65, 64, 63, 66, 0}", "FromForms": '{"addr", "lastbyte", "firstbyte", "contract"}',
         "HashLens": "{32, 31, 1, 0, 33}"}
 
